@@ -563,7 +563,6 @@ func (v *VMValue) toStringRaw(ri *recursionInfo) string {
 			return "[...]"
 		}
 		ri.exists[v.Value] = true
-		defer delete(ri.exists, v.Value) // 只标记当前路径: 同一数组出现两次(非循环)应照常输出
 
 		s := "["
 		arr, _ := v.ReadArray()
@@ -585,7 +584,6 @@ func (v *VMValue) toStringRaw(ri *recursionInfo) string {
 			return "{...}"
 		}
 		ri.exists[v.Value] = true
-		defer delete(ri.exists, v.Value)
 
 		var items []string
 		dd, _ := v.ReadDictData()
